@@ -273,7 +273,8 @@ def check_c06(rep):
         run_instance(rep, "plainops_" + sch, ps, actions=plainops, depth=(4 if sch == "ckks" else 5) if quick else (5 if sch == "ckks" else 6), msgs=msgs, tag_msgs=True, tag_alias=True,
                      extra_sample=5000 if quick else 50000, scales=(30,))
     import he_trace
-    for nm, ps, sc in (("bfv", "bfv_8_17_45,45,45,45,45", (30,)), ("bgv", "bgv_8_17_45,45,45,45,45", (30,)), ("ckks", "ckks_8_0_40,40,40,40,40", (30, 20))):
+    for nm, ps, sc in (("bfv", "bfv_8_17_45,45,45,45,45", (30,)), ("bgv", "bgv_8_17_45,45,45,45,45", (30,)), ("ckks", "ckks_8_0_40,40,40,40,40", (30, 20)),
+                       ("bgv16", "bgv_16_97_45,45,45,45", (30,)), ("bfv32", "bfv_32_193_50,50,50,50", (30,)), ("ckks32", "ckks_32_0_40,40,40,40", (30,))):
         he_trace.run_trace(rep, nm, ps, nprogs=25 if quick else 400, length=100 if quick else 200, scales=sc)
     rep.assumptions += TRACE_ASSUME
     rep.assumptions += COMMON_ASSUME
